@@ -1,28 +1,41 @@
-"""usage: harness/reseedall.py [prefix ...] — regression over the stored seeded changes: applies each seeded/<id>/patch.diff to a scratch worktree,
-runs the check recorded in its meta.json (detected_by.check) and prints CAUGHT (with whether a concrete failing input was reported) or MISSED.
-Writes seeded/RESULTS.json."""
-import json, os, re, subprocess, sys
+"""usage: harness/reseedall.py [-j N] [prefix ...] — regression over the stored seeded changes: applies each seeded/<id>/patch.diff to a scratch
+worktree, runs the check recorded in its meta.json (detected_by.check) from a private copy of /verif (harness/seedrun.sh) and prints CAUGHT (with
+whether a concrete failing input was reported) or MISSED.  Writes seeded/RESULTS.json."""
+import json, os, re, subprocess, sys, threading
+from concurrent.futures import ThreadPoolExecutor
 V = os.path.dirname(os.path.dirname(os.path.abspath(__file__)))
-pre = sys.argv[1:]
-res = {}
+args = sys.argv[1:]
+jobs = 4
+if args and args[0] == '-j':
+    jobs = int(args[1]); args = args[2:]
+pre = args
 rp = os.path.join(V, 'seeded', 'RESULTS.json')
-if os.path.exists(rp):
-    res = json.load(open(rp))
-for d in sorted(os.listdir(os.path.join(V, 'seeded'))):
+res = json.load(open(rp)) if os.path.exists(rp) else {}
+lock = threading.Lock()
+
+
+def one(d):
     p = os.path.join(V, 'seeded', d)
-    if not os.path.isdir(p) or (pre and not any(d.startswith(x) for x in pre)):
-        continue
     meta = json.load(open(os.path.join(p, 'meta.json')))
     chk = meta.get('detected_by', {}).get('check') or meta.get('property')
     out = subprocess.run([os.path.join(V, 'harness', 'seedrun.sh'), os.path.join(p, 'patch.diff'), chk], capture_output=True, text=True).stdout
     viol = re.findall(r'^VIOLATION property=\S+ replay=\S+(.*)$', out, re.M)
-    sigs = re.findall(r'^    (\S+) \|', out, re.M)
-    if not viol:
+    sigs = re.findall(r'^    (.+?) \|', out, re.M)
+    if '== ' not in out:
+        st = 'RUN-FAILED'
+    elif not viol:
         st = 'MISSED'
     elif any('no-failing-input-found' not in v for v in viol):
         st = 'CAUGHT concrete'
     else:
         st = 'CAUGHT no-failing-input-found'
-    res[d] = {'check': chk, 'status': st, 'signatures': sigs[:4]}
-    print(d, chk, st, ' '.join(sigs[:3])[:150], flush=True)
-    json.dump(res, open(rp, 'w'), indent=1)
+    with lock:
+        res[d] = {'check': chk, 'status': st, 'signatures': sigs[:4]}
+        print(d, chk, st, ' ; '.join(sigs[:3])[:150], flush=True)
+        json.dump(res, open(rp, 'w'), indent=1)
+
+
+todo = [d for d in sorted(os.listdir(os.path.join(V, 'seeded')))
+        if os.path.isdir(os.path.join(V, 'seeded', d)) and (not pre or any(d.startswith(x) for x in pre))]
+with ThreadPoolExecutor(max_workers=jobs) as ex:
+    list(ex.map(one, todo))
